@@ -36,7 +36,7 @@ PROP = "C18"
 VERIF = os.path.dirname(HERE)
 
 # deviation switches of spec/AyDump.tla that reproduce the code as it is (every one is a finding on the pinned tree)
-ASIS = ["ElideDelDefault", "ElideDelParent", "ElideNewDefault", "ElideSafeDefault", "ElideSafeParent", "PlainTagNotPushed",
+ASIS = ["ElideDelDefault", "ElideDelParent", "ElideNewDefault", "ElideNewParent", "ElideSafeDefault", "ElideSafeParent", "PlainTagNotPushed",
         "SafeTagTrue", "NullDropsFlags", "ClearNoValue", "PathNoRefWraps", "ReprQuoting"]
 if os.environ.get("C18_ASIS") is not None:      # e.g. C18_ASIS="" AY_REPO=<tree with the proposed fix>: the library against the intended design
     ASIS = [x for x in os.environ["C18_ASIS"].split(",") if x]
@@ -52,6 +52,10 @@ FINDINGS = {  # switch -> (finding id, call site, what fails)
                        "when `!prev` moves it elsewhere (`z: {p: 1}; a: !metadata{{'delete': True, 'm': 1}} {x: !del {q: 2}}` then `z: !prev a.x`)"),
     "ElideNewDefault": ("F11c", "awesomeyaml/yaml.py _node_representer (current == default, allow_new)",
                         "`!new` (allow_new=True) is never written: `!notnew {x: !new {..}}` comes back with x forbidding new keys"),
+    "ElideNewParent": ("F11l", "awesomeyaml/yaml.py _node_representer (current == parent, allow_new)",
+                       "an explicit `!notnew` equal to the enclosing encoded entry is not written; the enclosing `!extend` / `!append` node is "
+                       "replaced by a plain list at premerge, so `a: !extend{{'allow_new': False}} [ !notnew {a: 1} ]` raises MergeError as a first "
+                       "document while its dump builds"),
     "ElideSafeDefault": ("F11d", "awesomeyaml/yaml.py _node_representer (current == default, safe)",
                          "an explicit safe flag equal to the source's default is not written: `!unsafe {x: !metadata{{'safe': True}} ..}` "
                          "comes back with x (and what it executes) unsafe"),
@@ -127,13 +131,14 @@ def kind_class(k):
     return "eval" if k == "fstr" else k
 
 
-def obs(n, c):
-    """n: projection of the merged tree; c: projection of its deep copy (what Config evaluates: inherited flags re-derived)"""
+def obs(n, c, under=False):
+    """n: projection of the merged tree; c: projection of its deep copy (what Config evaluates: inherited flags re-derived);
+    under: below a function node (its arguments are evaluated with require_all_safe)"""
     comp = c["k"] in COMPOSED
     return {"k": kind_class(n["k"]), "v": n["v"], "fn": n["fn"], "ref": n["ref"], "md": sorted(map(json.dumps, n["md"])), "pr": eff_pr(n),
-            "safe": eff_safe(c) if c["k"] in SAFEK else True,
+            "safe": eff_safe(c) if (under or c["k"] in SAFEK) else True,
             "ksafe": ((c["safe"] if c["safe"] != "N" else c["isafe"]) != "F") if comp else True,
-            "ch": [[k, obs(x, y)] for (k, x), (_, y) in zip(n["ch"], c["ch"])]}
+            "ch": [[k, obs(x, y, under or c["k"] in ("call", "bind"))] for (k, x), (_, y) in zip(n["ch"], c["ch"])]}
 
 
 def data_of(n):
@@ -759,14 +764,14 @@ THOROUGH_JOBS = [
     ("new", ["U_FocusNew"], True, False),
     ("safe", ["U_FocusSafe"], True, False),
     ("kinds", ["U_TKinds"], True, False),
-    ("siblings+three-stage", ["U_Siblings", "U_QFocusDel", "U_QFocusNew"], True, True),
-    ("all-decorations", ["U_AllX", "U_AllZd", "U_AllZl", "U_AllZe"], True, False),
+    ("siblings+three-stage", ["U_Siblings", "U_Q3", "U_MutDel"], True, True),
+    ("all-decorations", ["U_AllX", "U_AllZd"], True, False),
     ("pairs", ["U_Pairs2"], True, False),
     ("unsafe-source", ["U_QFocusSafe", "U_MutKinds", "U_QKinds", "U_MutSafe"], False, False),
 ]
 MUTATIONS = [  # (deviation switch or design mutation, universe, source safety)
     ("ElideDelDefault", "U_MutDel", True), ("ElideNewDefault", "U_MutNew", True),
-    ("ElideSafeDefault", "U_MutSafe", True), ("ElideSafeParent", "U_MutSafe", True), ("PlainTagNotPushed", "U_MutNew", True),
+    ("ElideSafeDefault", "U_MutSafe", True), ("ElideSafeParent", "U_MutSafe", True), ("PlainTagNotPushed", "U_MutKindsP", True), ("ElideNewParent", "U_MutNewP", True),
     ("SafeTagTrue", "U_MutSafe", False), ("NullDropsFlags", "U_MutKinds", True), ("ClearNoValue", "U_MutKinds", True),
     ("PathNoRefWraps", "U_MutKinds", True), ("ReprQuoting", "U_MutKinds", True), ("ElideDelParent", "U_MutDel", True),
     ("mut:DropMdWithFlag", "U_MutKinds", True),
@@ -791,7 +796,7 @@ def run(prop, tier, seed, replay, keep):
         jobs = [j for j in jobs if j[0] in os.environ["C18_JOBS"].split(",")]
     tmo = 600 if quick else 3000
     nsample = 2 if quick else 6
-    ntraces = 300 if quick else 4000
+    ntraces = 300 if quick else 2500
     cov = {"configs": [], "mutations": [], "states": 0, "transitions": 0, "traces_validated_against_impl": 0, "samples": [],
            "evaluations": 0, "distinct_nontrivial": 0, "exhaustive": True}
     violations, drift, known_hits = [], 0, {}
@@ -862,7 +867,7 @@ def run(prop, tier, seed, replay, keep):
             return r
 
         def go_witness(_):
-            upath, n = upath_of("mut_U_MutNew", ["U_MutNew"])
+            upath, n = upath_of("mut_U_MutKindsP", ["U_MutKindsP"])
             wd = tlc.workdir("C18_wit")
             try:
                 consts = {"Dev": "{}", "AsIs": S_(ASIS), "SrcSafes": "{TRUE}", "Stages3": "FALSE"}
@@ -875,7 +880,8 @@ def run(prop, tier, seed, replay, keep):
             return r
 
         results, replays = {}, {}
-        with ThreadPoolExecutor(max_workers=4 if quick else 3) as ex:
+        ex = ThreadPoolExecutor(max_workers=4 if quick else 3)
+        try:
             futs = [ex.submit(go_mc, j) for j in jobs] + [ex.submit(go_mut, m) for m in MUTATIONS] + [ex.submit(go_witness, 0)]
             for fu in as_completed(futs):
                 r = fu.result()
@@ -891,6 +897,8 @@ def run(prop, tier, seed, replay, keep):
                     step = max(1, min(40, len(rows) // 64 or 1))
                     replays[r["name"]] = (rows, pool.map_async(_replay_chunk, [(r["upath"], rows[a:a + step], seed, nsample)
                                                                                for a in range(0, len(rows), step)]))
+        finally:
+            ex.shutdown(wait=True, cancel_futures=True)     # a machinery failure does not wait for the jobs still queued
         t_tlc = time.time() - t0
 
         # ---------------- mutation cfgs must be refuted
